@@ -271,8 +271,11 @@ impl Lsp {
         }
         // the draft is edited a few times before it is thrown away (its versions go up to 4; a client that opens the
         // document again later numbers its versions from the start again)
-        for v in 1..=4 {
-            self.did_change(uri, v, &[(Some([[0, 0], [0, 0]]), format!("// edit {v}\n"))])?;
+        // (every other draft; the others are closed as they were opened, never edited)
+        if disk_text.len() % 2 == 0 {
+            for v in 1..=4 {
+                self.did_change(uri, v, &[(Some([[0, 0], [0, 0]]), format!("// edit {v}\n"))])?;
+            }
         }
         self.did_close(uri)?;
         // a request forces the refresh that follows the close
